@@ -42,10 +42,12 @@ def parse_c2s(stream):
     return out
 
 
-def replay(script_text, warp, tmp):
+def replay(script_text, warp, tmp, via_stdin=False):
     path = os.path.join(tmp, "rec.vdo")
     with open(path, "w", encoding="utf-8", newline="") as f:
         f.write(script_text)
+    if via_stdin:
+        return replay_stdin(script_text, warp)
     clock = task.Clock()
     old = vclient.reactor
     vclient.reactor = clock
@@ -73,6 +75,46 @@ def replay(script_text, warp, tmp):
         return stamped, None
     except Exception as e:  # noqa
         return None, "script rejected: %s %s" % (type(e).__name__, e)
+    finally:
+        vclient.reactor = old
+
+
+def replay_stdin(script_text, warp):
+    """`vncdo -`: the recorded script is piped into vncdo's standard input (build_tool's stdin branch)"""
+    import io, sys
+    from unittest import mock
+    clock = task.Clock()
+    old = vclient.reactor
+    vclient.reactor = clock
+    try:
+        c, trace = connect()
+        stamped = []
+        c.transport.write = lambda data: stamped.append((clock.seconds(), bytes(data)))
+        opts = mock.Mock(verbose=0, delay=None, warp=warp, incremental_refreshes=False, host="h", port=1, address_family=0)
+        with mock.patch.object(command, "factory_connect", lambda *a: None), mock.patch.object(command, "reactor", mock.Mock()), \
+                mock.patch.object(sys, "stdin", io.StringIO(script_text)):
+            try:
+                fac = command.build_tool(opts, ["-"])
+            except SystemExit as e:
+                return None, "script rejected on stdin: %s" % (e.code,)
+        done, errs = [], []
+        fac.deferred.addCallback(lambda cl: done.append(1))
+        fac.deferred.addErrback(lambda f: errs.append(f))
+        fac.deferred.callback(c)
+        guard = 0
+        while not done and not errs and guard < 100000:
+            guard += 1
+            calls = clock.getDelayedCalls()
+            if not calls:
+                break
+            clock.advance(max(0.0, min(dc.getTime() for dc in calls) - clock.seconds()))
+        if errs:
+            return None, "replay (stdin) raised %s" % exc_class(errs[0].value)
+        if not done:
+            return None, "replay (stdin) did not finish"
+        return stamped, None
+    except Exception as e:  # noqa
+        return None, "script rejected on stdin: %s %s" % (type(e).__name__, e)
     finally:
         vclient.reactor = old
 
@@ -123,13 +165,22 @@ def run(ctx):
                     msg = struct.pack("!BBHH", 5, m, x, y)
                     evs.append(("ptr", x, y, m, t))
                 p.set_time(t)
-                p.viewer_sends(msg)
+                if r.random() < .15 and len(msg) > 1:
+                    # the message arrives in two TCP segments (same arrival time): what is recorded must not depend on that
+                    cut = r.randrange(1, len(msg))
+                    p.viewer_sends(msg[:cut])
+                    p.viewer_sends(msg[cut:])
+                    ctx.count("messages_split_in_two")
+                else:
+                    p.viewer_sends(msg)
             script = "".join(p.rec)
+            via_stdin = r.random() < .3 and not any(e[0] == "key" and e[1] == 13 for e in evs)
+            ctx.count("replayed_via_stdin" if via_stdin else "replayed_from_file")
             unrec = any(e[0] == "key" and e[1] > 0x10FFFF for e in evs)
             warp = r.choice([1.0, 1.0, 0.5, 2.0, 4.0])
-            stamped, err = replay(script, warp, tmp)
+            stamped, err = replay(script, warp, tmp, via_stdin)
             rp = {"input": {"events": [list(e) for e in evs], "warp": warp, "script": script},
-                  "how": "real recorder text written to a file, compiled by build_command_list and executed on a real client with a virtual clock"}
+                  "how": "real recorder text written to a file (or piped into vncdo - ), compiled by build_command_list and executed on a real client with a virtual clock", "via_stdin": via_stdin}
             has_cr = any(e[0] == "key" and e[1] == 13 for e in evs)
             sig = "keysym-not-recordable" if unrec else ("keysym-cr" if has_cr else "replay")
             nt = len(evs) >= 3 and special
